@@ -828,15 +828,23 @@ func (a *FuncAn) vettedBy(s *State, v ssa.Value) string {
 	best := ""
 	for k, tv := range s.truth {
 		c, ok := k.(*ssa.Call)
-		if !ok || !tv {
+		if !ok {
 			continue
 		}
 		callee := c.Call.StaticCallee()
 		if callee == nil || !a.E.InModule(callee) || callee.Blocks == nil {
 			continue
 		}
+		if _, hasErr := errOfSignature(callee.Signature); hasErr && !tv {
+			continue // an error-returning call must be known to have succeeded
+		}
 		if _, hasErr := errOfSignature(callee.Signature); !hasErr {
-			continue
+			// a boolean predicate of the module whose truth is known on this path (`if !intutil.ValidIndex(i, n) {
+			// return … }`) and that the engine has neither a decision nor a comparison summary for
+			res := callee.Signature.Results()
+			if res.Len() != 1 || !isBoolType(res.At(0).Type()) || a.E.decisionComplete(callee) || a.E.predOf(callee) != nil {
+				continue
+			}
 		}
 		vr := valueRoots(v, 0)
 		for _, arg := range c.Call.Args {
@@ -929,4 +937,23 @@ func upcastOK(x *ssa.TypeAssert) bool {
 		return false
 	}
 	return types.Implements(x.X.Type(), ai)
+}
+
+func isBoolType(t types.Type) bool {
+	b, ok := t.Underlying().(*types.Basic)
+	return ok && b.Kind() == types.Bool
+}
+
+// decisionComplete: the function has a decision summary every case of which expresses all its branch conditions.
+func (e *Engine) decisionComplete(f *ssa.Function) bool {
+	d := e.Decide(f)
+	if d == nil || len(d.cases) == 0 {
+		return false
+	}
+	for _, c := range d.cases {
+		if c.partial || c.res.kind == '?' {
+			return false
+		}
+	}
+	return true
 }
